@@ -387,6 +387,28 @@ def run(ctx):
 
     ctx.drive(cases(), ctx.n(40, 500), fn=fn, salt=1)
 
+    # lattices whose spacing the library has to infer (from_origins(dh=None) takes it from the first two latitudes / longitudes) while
+    # the two axes live on very different scales and signs: one axis far from zero (both signs), the other within a degree of zero
+    @st.composite
+    def inferred(draw):
+        dh = draw(st.sampled_from(["0.1", "0.2", "0.05", "0.25", "0.3", "0.5"]))
+        big = draw(st.sampled_from(["-43.11", "-125.4", "-41.7", "-60.25", "-9.9", "43.11", "125.4", "9.99", "-170.3", "35.95"]))
+        small = draw(st.sampled_from(["0", "-0.1", "0.1", "-0.3", "0.2", "-0.5", "0.05"]))
+        big_is_lat = draw(st.booleans()) and abs(float(big)) < 80
+        nx, ny = draw(st.integers(2, 5)), draw(st.integers(2, 5))
+        cells = [[i, j] for i in range(nx) for j in range(ny)]          # latitude fast: the first two origins are latitude neighbours
+        if draw(st.booleans()):
+            cells = [[i, j] for j in range(ny) for i in range(nx)]      # longitude fast
+        c = {"dh": dh, "lon0": small if big_is_lat else big, "lat0": big if big_is_lat else small, "cells": cells, "flags": None,
+             "origin_mode": "clean", "dh_mode": "none", "ctor": draw(st.sampled_from(["from_origins", "dict"])), "extra": []}
+        return c
+
+    def fn_inf(c, case):
+        check_case(c, case)
+        c.record(case, True, "lattice:inferred_spacing_mixed_scales")
+
+    ctx.drive(inferred(), ctx.n(12, 150), fn=fn_inf, salt=4)
+
     names = ["nz", "nz_collection", "italy_collection", "california_collection", "global2", "global1"]
     if ctx.tier == "thorough":
         names.append("global05")
